@@ -1,5 +1,6 @@
 import SqfModel.Lemmas.ConfigInv
 import SqfModel.Lemmas.CfgRound
+import SqfModel.GrammarTie
 /-!
 # C15 — config tree: values read back, inheritance lookup, merge/delete/append, acyclic
 
@@ -385,5 +386,32 @@ open Sqf.CfgText in
 example : parseText n!"class A { x = 1 }" = none := by decide +kernel
 open Sqf.CfgText in
 example : (parseText n!"class A { x = a b }; };").map cfgText = some n!"class A { x = a b } ; } ; " := by decide +kernel
+
+/-! ## 8. The config grammar of the current tree (translated from `parser.tab.cc` on every run)
+
+The LALR tables, semantic actions, symbol names, node kinds and the `yylex` of the config grammar are read out of
+the checked-in `parser.tab.cc` by `translators/lalr.py` on every run; the kernel evaluates the statements below over
+that generated data.  The table driver (`LR.lean`) runs them beside the hand-written grammar model of section 7 on
+every generated text (`cfgastlr`). -/
+
+open Sqf.Generated.CfgGrammar Sqf.GrammarTie in
+/-- the config `yylex` hands every tokenizer kind to the grammar as the token the model's parser expects, skips
+exactly the trivia, and turns anything else into `ANY` -/
+theorem C15_cfg_yylex_agrees :
+    yylexSimple.all (fun e => match ckOfName e.1 with | some k => cfgMakeName k == e.2 | none => false) = true ∧
+    yylexSimple.length = 23 ∧ yylexDefault = "ANY" :=
+  cfg_yylex_agrees
+
+open Sqf.Generated.CfgGrammar in
+/-- tables, actions, names and kinds of the current tree are those the hand-written grammar model was validated
+against -/
+theorem C15_cfg_grammar_canonical :
+    (complete = true ∧ yypact = Canon.CfgGrammar.yypact ∧ yydefact = Canon.CfgGrammar.yydefact ∧
+    yypgoto = Canon.CfgGrammar.yypgoto ∧ yydefgoto = Canon.CfgGrammar.yydefgoto ∧ yytable = Canon.CfgGrammar.yytable ∧
+    yycheck = Canon.CfgGrammar.yycheck ∧ yyr1 = Canon.CfgGrammar.yyr1 ∧ yyr2 = Canon.CfgGrammar.yyr2 ∧
+    yypact_ninf = Canon.CfgGrammar.yypact_ninf ∧ yytable_ninf = Canon.CfgGrammar.yytable_ninf ∧
+    yylast = Canon.CfgGrammar.yylast ∧ yyfinal = Canon.CfgGrammar.yyfinal ∧ yyntokens = Canon.CfgGrammar.yyntokens) ∧
+    acts = Canon.CfgGrammar.acts ∧ tnames = Canon.CfgGrammar.tnames ∧ kinds = Canon.CfgGrammar.kinds :=
+  ⟨GrammarTie.cfg_tables_canonical, GrammarTie.cfg_actions_canonical, GrammarTie.cfg_names_canonical⟩
 
 end Sqf.Props.C15
